@@ -1,6 +1,11 @@
 (* C15 — PRFs are deterministic, prefix-consistent and equal to HMAC / HKDF / AES-CMAC.
 
-   Statements only; proofs live in proofs/{Hmac,Hkdf,Prf,Cmac}Proofs.v.
+   Statements only; proofs live in proofs/{Hmac,Hkdf,Prf,Cmac,HmacCode,HkdfCode}Proofs.v, PrfProofs2.v.
+   As-coded models: model/HmacCode.v (crypto/hmac), model/HkdfCode.v (golang.org/x/crypto/hkdf:
+   Extract with the nil-salt rule, the stateful Expand reader with its byte counter, previous
+   block and buffer of unread bytes; Tink's ComputePRF / ComputeHKDF callers with io.ReadFull),
+   proved equal to the RFC transcriptions for every read schedule; model/PrfHandle.v
+   (NewPRFSet reading a handle of the keyset.Manager model).
    Models: model/Prf.v (prf/subtle, the three PRF key types, prf.NewPRFSet,
    subtle.ComputeHKDF, after the Go code) over model/Hmac.v (RFC 2104),
    model/Hkdf.v (RFC 5869) and model/Cmac.v (the Go loop, proved equal to RFC 4493).
@@ -9,7 +14,8 @@
    Determinism: a model PRF is a Gallina function of (input, output length);
    the correspondence run evaluates every request twice on the real code. *)
 From Coq Require Import List NArith Bool.
-From Tink Require Import Bytes Cmac Hmac Hkdf Prf CmacProofs HmacProofs HkdfProofs PrfProofs.
+From Tink Require Import Bytes Cmac Hmac Hkdf Prf Manager PrfHandle HmacCode HkdfCode.
+From Tink Require Import CmacProofs HmacProofs HkdfProofs PrfProofs ManagerProofs HmacCodeProofs HkdfCodeProofs PrfProofs2.
 Import ListNotations.
 Open Scope N_scope.
 
@@ -45,6 +51,75 @@ Theorem C15_hkdf_empty_salt_is_zero_salt :
     forall ikm info L, hkdf H B HashLen [] ikm info L = hkdf H B HashLen (zeros HashLen) ikm info L.
 Proof. intros H B HashLen HB ikm info L. apply hkdf_empty_salt. exact HB. Qed.
 Print Assumptions C15_hkdf_empty_salt_is_zero_salt.
+
+(* ---- golang.org/x/crypto/hkdf AS CODED = RFC 5869, for every schedule of reads ---- *)
+(* The hash is a streaming interface with the single law "Sum = H of what was written since
+   Reset" and output length HashLen > 0.  Reading hkdf.New(h, secret, salt, info) with buffers
+   of ANY sizes, across any number of Read calls, observes exactly the RFC 5869 stream
+   T(1) | T(2) | ... | T(255) from PRK = HMAC(salt or HashLen zeros when nil, secret): each Read
+   returns the next bytes of the stream, and a Read that would pass 255*HashLen bytes fails
+   ("entropy limit reached") and consumes nothing (spec_reads, proofs/HkdfCodeProofs.v). *)
+Theorem C15_xcrypto_hkdf_reader_is_rfc5869 :
+  forall (S : Type) (h_init : S) (h_write : S -> bytes -> S) (h_sum : S -> bytes)
+         (B : nat) (marshalable : bool) (H : bytes -> bytes) (HashLen : nat),
+    (forall chunks, h_sum (fold_left h_write chunks h_init) = H (concat chunks)) ->
+    (forall x, length (H x) = HashLen) -> (0 < HashLen)%nat ->
+    forall secret salt info sizes,
+      snd (rd_reads S h_init h_write h_sum marshalable
+             (new_code S h_init h_write h_sum B HashLen secret salt info) sizes)
+      = spec_reads (hkdf_blocks H B (hkdf_extract H B (salt_of HashLen salt) secret) info [] 1 255)
+                   0 sizes.
+Proof. exact reader_is_rfc5869. Qed.
+Print Assumptions C15_xcrypto_hkdf_reader_is_rfc5869.
+
+(* in particular every schedule within the limit succeeds piece by piece and the pieces
+   concatenate to RFC 5869 HKDF(salt, secret, info, total length) *)
+Theorem C15_xcrypto_hkdf_reads_concatenate_to_rfc5869 :
+  forall (S : Type) (h_init : S) (h_write : S -> bytes -> S) (h_sum : S -> bytes)
+         (B : nat) (marshalable : bool) (H : bytes -> bytes) (HashLen : nat),
+    (forall chunks, h_sum (fold_left h_write chunks h_init) = H (concat chunks)) ->
+    (forall x, length (H x) = HashLen) -> (0 < HashLen)%nat ->
+    forall secret salt info sizes, (list_sum sizes <= 255 * HashLen)%nat ->
+    exists outs,
+      snd (rd_reads S h_init h_write h_sum marshalable
+             (new_code S h_init h_write h_sum B HashLen secret salt info) sizes) = map Some outs /\
+      map (@length N) outs = sizes /\
+      hkdf H B HashLen (salt_of HashLen salt) secret info (list_sum sizes) = Some (concat outs).
+Proof. exact reader_pieces_concat_to_hkdf. Qed.
+Print Assumptions C15_xcrypto_hkdf_reads_concatenate_to_rfc5869.
+
+(* io.ReadFull / io.ReadAtLeast of n bytes from a fresh reader IS RFC 5869 HKDF (None beyond
+   255*HashLen), and a nil salt, an empty salt and HashLen zero bytes give the same PRK *)
+Theorem C15_xcrypto_hkdf_read_full_is_rfc5869 :
+  forall (S : Type) (h_init : S) (h_write : S -> bytes -> S) (h_sum : S -> bytes)
+         (B : nat) (marshalable : bool) (H : bytes -> bytes) (HashLen : nat),
+    (forall chunks, h_sum (fold_left h_write chunks h_init) = H (concat chunks)) ->
+    (forall x, length (H x) = HashLen) -> (0 < HashLen)%nat ->
+    forall secret salt info n,
+      snd (read_full S h_init h_write h_sum marshalable
+             (new_code S h_init h_write h_sum B HashLen secret salt info) n)
+      = hkdf H B HashLen (salt_of HashLen salt) secret info n.
+Proof. exact read_full_is_hkdf. Qed.
+Print Assumptions C15_xcrypto_hkdf_read_full_is_rfc5869.
+
+Theorem C15_hkdf_nil_salt_is_empty_salt :
+  forall (H : bytes -> bytes) (B HashLen : nat), (HashLen <= B)%nat ->
+    forall secret,
+      hkdf_extract H B (salt_of HashLen (Some [])) secret = hkdf_extract H B (salt_of HashLen None) secret.
+Proof. intros H B HashLen HB secret. cbn [salt_of]. apply hkdf_extract_empty_salt. exact HB. Qed.
+Print Assumptions C15_hkdf_nil_salt_is_empty_salt.
+
+(* ---- which keys the PRF constructors accept, exactly (necessity and totality) ---- *)
+(* primitiveConstructor of a PRF key (Validate*PRFParams, then the subtle constructor): HMAC-PRF any
+   known hash and key >= 16 bytes; HKDF-PRF SHA-256 / SHA-512 only and key >= 32 bytes; AES-CMAC-PRF
+   key = 32 bytes.  The subtle constructors alone: any known hash, any key (HMAC, HKDF); 16/24/32-byte
+   keys (AES-CMAC). *)
+Theorem C15_accepted_prf_keys_exact :
+  forall Hash AES k key,
+    ((exists p, key_prf Hash AES k key = Ok p) <-> prf_key_in_range k (length key)) /\
+    ((exists p, subtle_new Hash AES k key = Ok p) <-> prf_subtle_in_range k (length key)).
+Proof. intros. split; [apply key_prf_accepts_iff | apply subtle_new_accepts_iff]. Qed.
+Print Assumptions C15_accepted_prf_keys_exact.
 
 Section C15.
   Variable Hash : hash_alg -> bytes -> bytes.
@@ -144,6 +219,63 @@ Section C15.
       (n < 10)%nat \/ (match h with Some a => (255 * digest_size a < n)%nat | None => True end) ->
       compute_hkdf Hash h key salt info n = Err.
   Proof. exact (compute_hkdf_refuses Hash). Qed.
+
+  (* ---- the Go code paths AS CODED are the model PRFs ---- *)
+  (* for any streaming hash.Hash that computes Hash a (block size / digest size of a) *)
+  Theorem C15_hmac_prf_as_coded_is_model :
+    forall (S : Type) (h_init : S) (h_write : S -> bytes -> S) (h_sum : S -> bytes) (a : hash_alg),
+      (forall chunks, h_sum (fold_left h_write chunks h_init) = Hash a (concat chunks)) ->
+      forall key data n,
+        tink_hmac_prf_code S h_init h_write h_sum (block_size a) (digest_size a) key data n
+        = hmac_prf Hash a key data n.
+  Proof. exact (hmac_prf_code_is_model Hash). Qed.
+
+  (* prf/subtle/hkdf.go ComputePRF = hkdf.New + io.ReadAtLeast + output[:n], salt nil or not *)
+  Theorem C15_hkdf_prf_as_coded_is_model :
+    forall (S : Type) (h_init : S) (h_write : S -> bytes -> S) (h_sum : S -> bytes)
+           (marshalable : bool) (a : hash_alg),
+      (forall chunks, h_sum (fold_left h_write chunks h_init) = Hash a (concat chunks)) ->
+      forall key salt data n,
+        tink_hkdf_prf_code S h_init h_write h_sum (block_size a) marshalable (digest_size a)
+          key (Some salt) data n = hkdf_prf Hash a key salt data n /\
+        tink_hkdf_prf_code S h_init h_write h_sum (block_size a) marshalable (digest_size a)
+          key (match salt with [] => None | _ => Some salt end) data n = hkdf_prf Hash a key salt data n.
+  Proof. exact (hkdf_prf_code_is_model Hash Hash_len). Qed.
+
+  (* subtle/hkdf.go ComputeHKDF: size checks, empty salt := HashLen zeros, hkdf.New, io.ReadFull *)
+  Theorem C15_compute_hkdf_as_coded_is_model :
+    forall (S : Type) (h_init : S) (h_write : S -> bytes -> S) (h_sum : S -> bytes)
+           (marshalable : bool) (a : hash_alg),
+      (forall chunks, h_sum (fold_left h_write chunks h_init) = Hash a (concat chunks)) ->
+      forall key salt info n,
+        tink_compute_hkdf_code S h_init h_write h_sum (block_size a) marshalable (digest_size a)
+          key salt info n = compute_hkdf Hash (Some a) key salt info n.
+  Proof. exact (compute_hkdf_code_is_model Hash Hash_len). Qed.
+
+  (* ---- the PRF set over keyset HISTORIES ---- *)
+  (* Whatever history of keyset.Manager operations (Add*, AddKeyWithOpts, SetPrimary, Enable,
+     Disable, Delete, Handle, NewManagerFromHandle; any id tape; starting empty or from a
+     well-formed handle) returned the handle h: if prf.NewPRFSet(h) succeeds then the set's
+     primary id is the id of THE primary entry of h (which is ENABLED), computed as the factory
+     does; the key ids are distinct and are exactly the ids of the ENABLED entries; each maps to
+     the PRF of its key; ComputePrimaryPRF is the primary key's PRF.  No premise on ids: distinct
+     ids and the unique enabled primary come from the C11 invariant of every history. *)
+  Theorem C15_prf_set_after_any_history :
+    forall (keyobj : N -> prf_kind * bytes) h0 tape ops s' rs h set,
+      (forall x, h0 = Some x -> wf_handle x) ->
+      run (init_state h0 tape) ops = (s', rs) -> In (RHandle h) rs ->
+      prf_set_of_handle Hash AES keyobj h = Some set ->
+      (exists pe, In pe h /\ eprim pe = true /\ est pe = Enabled /\
+                  (forall e, In e h -> eprim e = true -> e = pe) /\
+                  primary_id set = eid pe /\
+                  exists p, truncates Hash AES p (fst (keyobj (ekey pe))) (snd (keyobj (ekey pe))) /\
+                            forall input n, compute_primary set input n = p input n) /\
+      NoDup (map fst (prfs set)) /\
+      (forall id, In id (map fst (prfs set)) <-> exists e, In e h /\ est e = Enabled /\ eid e = id) /\
+      (forall e, In e h -> est e = Enabled ->
+         exists p, set_lookup (prfs set) (eid e) = Some p /\
+                   truncates Hash AES p (fst (keyobj (ekey e))) (snd (keyobj (ekey e)))).
+  Proof. exact (prf_set_after_history Hash AES Hash_len AES_len AES_wf0). Qed.
 End C15.
 Print Assumptions C15_prf_is_truncated_standard_value.
 Print Assumptions C15_prf_prefix_law.
@@ -151,6 +283,10 @@ Print Assumptions C15_prf_set_mirrors_enabled_keys.
 Print Assumptions C15_compute_hkdf_is_rfc5869.
 Print Assumptions C15_compute_hkdf_agrees_with_hkdf_prf.
 Print Assumptions C15_compute_hkdf_limits.
+Print Assumptions C15_hmac_prf_as_coded_is_model.
+Print Assumptions C15_hkdf_prf_as_coded_is_model.
+Print Assumptions C15_compute_hkdf_as_coded_is_model.
+Print Assumptions C15_prf_set_after_any_history.
 
 (* Non-vacuity: the oracle premises are satisfiable and each constructor succeeds somewhere. *)
 Example C15_nonvacuous :
@@ -175,3 +311,35 @@ Proof.
   - eexists. split; reflexivity.
   - eexists. vm_compute. reflexivity.
 Qed.
+
+(* Non-vacuity of the new theorems: the streaming law is inhabited (accumulating hash over any
+   H); a history with a disabled and a deleted key yields a handle on which NewPRFSet succeeds
+   with ids = the enabled ids and the primary set by SetPrimary; a read schedule crossing block
+   boundaries and hitting the limit. *)
+Example C15_stream_law_inhabited :
+  forall H : bytes -> bytes, forall chunks, H (fold_left acc_write chunks acc_init) = H (concat chunks).
+Proof. exact acc_stream_law. Qed.
+
+Example C15_history_nonvacuous :
+  let H := fun h (_ : bytes) => zeros (digest_size h) in
+  let A := fun (_ _ : bytes) => zeros 16 in
+  let keyobj := fun k : N => if N.eqb k 1 then (KCmac, zeros 32) else (KHmac (Some SHA256), zeros 16) in
+  let ops := [OAddKey (Some 7) 0; OAddKey None 1; OAddKey None 2; OAddKey None 3;
+              OSetPrimary 11; ODisable 7; ODelete 13; OHandle] in
+  exists s' rs h set,
+    run (init_state None [11; 12; 13]) ops = (s', rs) /\ In (RHandle h) rs /\
+    prf_set_of_handle H A keyobj h = Some set /\
+    map eid h = [7; 11; 12] /\ primary_id set = 11 /\ map fst (prfs set) = [11; 12].
+Proof.
+  cbv zeta. do 4 eexists. split; [vm_compute; reflexivity|].
+  split; [do 7 right; left; reflexivity|]. split; [vm_compute; reflexivity|].
+  split; [reflexivity|]. split; reflexivity.
+Qed.
+
+Example C15_reader_schedule_example :
+  let H := fun m : bytes => firstn 4 (m ++ zeros 4) in
+  spec_reads (hkdf_blocks H 8 [9] [] [] 1 255) 0 [3; 0; 6; 1020; 1012; 1011; 1]%nat
+  = [Some [85; 92; 92]; Some []; Some [92; 85; 92; 92; 92; 85];
+     None; None;
+     Some (firstn 1011 (skipn 9 (hkdf_blocks H 8 [9] [] [] 1 255))); None].
+Proof. vm_compute. reflexivity. Qed.
